@@ -589,8 +589,8 @@ class ProdParser:
                 else:
                     # print '\t1', debug, 'PROD', prod
 
-                    # may stop next time, once set stays
-                    stopIfNoMoreMatch = prod.stopIfNoMoreMatch or stopIfNoMoreMatch
+                    # may stop next time if the production just matched allows it
+                    stopIfNoMoreMatch = prod.stopIfNoMoreMatch
 
                     # process prod
                     if prod.toSeq and not prod.stopAndKeep:
